@@ -239,7 +239,11 @@ fn dump_file_state(
     let pid = resource_table::insert_path(path);
     let mut sec = |name: &str, text: String| out.push((format!("pass1/{label}/{name}"), text));
     let frag = symbol_table::export_fragment(before.sym, after.sym, pend);
-    sec("symbols", dbg_lines(&names, &frag.symbols));
+    // `export_fragment` also returns the file's shadowed `$sv::` members (a
+    // private list only a capture of this same file reads; a restore does not
+    // refill it and no caller captures a restored file): live symbols only.
+    let live: Vec<_> = frag.symbols.iter().filter(|s| symbol_table::get(s.id).is_some()).collect();
+    sec("symbols", dbg_lines(&names, &live));
     sec("imports", dbg_lines(&names, &frag.imports));
     sec("binds", dbg_lines(&names, &frag.binds));
     sec("msbs", dbg_lines(&names, &frag.msbs));
@@ -291,7 +295,20 @@ fn dump_global_state(out: &mut Vec<(String, String)>, raw: &mut Vec<(String, Str
     let mut sec = |name: &str, text: String| out.push((format!("{stage}/{name}"), text));
     // the repository's own dumps
     sec("symbol_table::dump", symbol_table::dump());
-    sec("type_dag::dump", type_dag::dump());
+    // The order of a node's parent lines is the order the edges were added;
+    // for generic arguments that is the iteration order of an
+    // FxHashMap<StrId, _> (type_dag.rs apply: `map.map.values()`), i.e. it
+    // follows the StrId numbering, which differs legitimately.  Compared as a
+    // set per node; the order later stages do observe is `toposort` below.
+    sec("type_dag::dump", sort_parent_lines(&type_dag::dump()));
+    sec(
+        "type_dag::toposort",
+        type_dag::toposort()
+            .iter()
+            .map(|s| format!("{} @ {}", s.token.text, norm_debug(&format!("{:?}", s.namespace), &names)))
+            .collect::<Vec<_>>()
+            .join("\n"),
+    );
     sec("type_dag::dump_file", type_dag::dump_file());
     raw.push((format!("{stage}/scope::dump_tokens"), scope::dump_tokens()));
     raw.push((format!("{stage}/attribute_table::dump"), attribute_table::dump()));
@@ -401,6 +418,23 @@ fn dump_global_state(out: &mut Vec<(String, String)>, raw: &mut Vec<(String, Str
     sec("tests", tests.join("\n"));
 }
 
+fn sort_parent_lines(dump: &str) -> String {
+    let mut out: Vec<String> = Vec::new();
+    let mut run: Vec<String> = Vec::new();
+    for l in dump.lines() {
+        if l.starts_with(" |- ") {
+            run.push(l.to_string());
+        } else {
+            run.sort();
+            out.append(&mut run);
+            out.push(l.to_string());
+        }
+    }
+    run.sort();
+    out.append(&mut run);
+    out.join("\n")
+}
+
 pub fn metadata() -> Metadata {
     Metadata::create_default(ROOT_PRJ).expect("default metadata")
 }
@@ -424,9 +458,6 @@ pub fn run_pipeline(files: &[FileIn], roles: &[Role], capture: bool) -> RunOut {
         pass1_diags: vec![0; n],
     };
     let mut parsers: Vec<Option<Parser>> = Vec::with_capacity(n);
-    // (file index, before, after, pending wm, refc0, tdc0, gp0) of files whose
-    // own state is dumped
-    let mut pending_dumps = Vec::new();
 
     for (k, f) in files.iter().enumerate() {
         let path = PathBuf::from(&f.path);
@@ -493,15 +524,11 @@ pub fn run_pipeline(files: &[FileIn], roles: &[Role], capture: bool) -> RunOut {
             after,
         });
         if !matches!(roles[k], Role::Parse) {
-            pending_dumps.push((k, before, after, pend, refc0, tdc0, gp0));
             // dumped right away: the pending-list exports run "since the
-            // watermark" to the end of the lists
-            let (k, before, after, pend, refc0, tdc0, gp0) = pending_dumps.pop().unwrap();
-            let mut secs = Vec::new();
-            // the slot names of later files are not known yet; a file's own
-            // fragment must not mention them anyway (they would print as post+)
-            dump_file_state(&mut secs, &out.slots, &files[k].label, &path, &before, &after, &pend, refc0, tdc0, gp0);
-            out.sections.extend(secs);
+            // watermark" to the end of the lists.  (The slots of later files
+            // are not known yet; a file's own fragment must not mention them
+            // anyway — they would print as post+n in both runs.)
+            dump_file_state(&mut out.sections, &out.slots, &files[k].label, &path, &before, &after, &pend, refc0, tdc0, gp0);
         }
     }
 
